@@ -659,6 +659,12 @@ func (r *RockDB) DeleteTableRange(dryrun bool, table string, start []byte, end [
 			continue
 		}
 		for _, rg := range rgs {
+			if r.cfg.ExpirationPolicy == common.WaitCompact && dt != KVType && (start != nil || end != nil) {
+				// under wait_compact the element keys carry the versioned key, a range built
+				// from the plain start/end keys does not address them (it hit the score index
+				// of other zsets): deleting the meta keys is enough, as for the clears
+				continue
+			}
 			r.rockEng.DeleteFilesInRange(rg)
 			wb.DeleteRange(rg.Start, rg.Limit)
 		}
